@@ -7,20 +7,21 @@ use huginn_net_http::http_common::{HttpCookie, HttpHeader};
 use huginn_net_http::http_languages::get_highest_quality_language;
 use huginn_net_http::{Http2Processor, HttpProcessor, HttpProcessors};
 use std::cell::RefCell;
+mod packets;
 
 /// [A-Za-z0-9._/-] literally, every other byte %xx (same as `escs` in EC16.v)
-fn escs(s: &[u8]) -> String {
+pub(crate) fn escs(s: &[u8]) -> String {
     let mut o = String::new();
     for &b in s {
         if b.is_ascii_alphanumeric() || b == b'-' || b == b'.' || b == b'_' || b == b'/' { o.push(b as char) } else { o.push_str(&format!("%{:02x}", b)) }
     }
     o
 }
-fn escs_opt(s: &Option<String>) -> String { match s { Some(x) => escs(x.as_bytes()), None => "~".into() } }
-fn show_headers(hs: &[HttpHeader]) -> String {
+pub(crate) fn escs_opt(s: &Option<String>) -> String { match s { Some(x) => escs(x.as_bytes()), None => "~".into() } }
+pub(crate) fn show_headers(hs: &[HttpHeader]) -> String {
     hs.iter().map(|h| format!("{}:{}:{}", h.position, escs(h.name.as_bytes()), escs_opt(&h.value))).collect::<Vec<_>>().join(",")
 }
-fn show_cookies(cs: &[HttpCookie]) -> String {
+pub(crate) fn show_cookies(cs: &[HttpCookie]) -> String {
     cs.iter().map(|c| format!("{}:{}:{}", c.position, escs(c.name.as_bytes()), escs_opt(&c.value))).collect::<Vec<_>>().join(",")
 }
 
@@ -82,6 +83,7 @@ fn run(line: &str) -> String {
     let res = match t[0] {
         "Q" => request(&unhex_or_dash(t[1]), &mut notes),
         "S" => response(&unhex_or_dash(t[1]), &mut notes),
+        "G" => packets::run_g(line),
         "A" => { let data = unhex_or_dash(t[7]); if t[1] == "q" { request(&data, &mut notes) } else { response(&data, &mut notes) } }
         _ => "BADCASE".into(),
     };
@@ -113,7 +115,7 @@ const LANGS: &[&str] = &["en-US,en;q=0.9", "de", "fr-CH, fr;q=0.9, en;q=0.8, de;
 const COOKIES: &[&str] = &["a=b", "a=b; c=d", "sid=abc123; theme=dark; x", " x = y ;; z=", "=v", "k==v=", ";", "", "a=b;c=d;e", "n\tm= 1 "];
 const PATHS: &[&str] = &["/", "/index.html", "/a/b?c=d&e=%20f", "*", "/%ff", "/with space"];
 
-fn request_headers(r: &mut Rng, valid: bool) -> Vec<H> {
+pub(crate) fn request_headers(r: &mut Rng, valid: bool) -> Vec<H> {
     let mut ps = vec![
         h(":method", r.pick(&["GET", "POST", "OPTIONS", "PUT", "x-odd"])), h(":path", r.pick(PATHS)),
         h(":authority", r.pick(&["example.com", "www.example.com:8443", "", "[::1]"])), h(":scheme", r.pick(&["https", "http"])),
@@ -148,7 +150,7 @@ fn request_headers(r: &mut Rng, valid: bool) -> Vec<H> {
     hs
 }
 
-fn response_headers(r: &mut Rng, valid: bool) -> Vec<H> {
+pub(crate) fn response_headers(r: &mut Rng, valid: bool) -> Vec<H> {
     let status = if valid { *r.pick(&["200", "204", "301", "404", "500", "999", "100"]) } else { *r.pick(&["abc", "+200", "65536", "65535", "0200", "", "20", "2000", "-1"]) };
     let mut hs = vec![h(":status", status)];
     let pool: Vec<H> = vec![
@@ -164,7 +166,7 @@ fn response_headers(r: &mut Rng, valid: bool) -> Vec<H> {
     hs
 }
 
-fn enc_opts(r: &mut Rng) -> EncOpts {
+pub(crate) fn enc_opts(r: &mut Rng) -> EncOpts {
     match r.below(6) {
         0 => EncOpts { huffman: 0, indexing: 0, use_index: 0, size_updates: 0, avoid15: false },
         1 => EncOpts { huffman: 100, indexing: 100, use_index: 100, size_updates: 0, avoid15: false },
@@ -174,7 +176,7 @@ fn enc_opts(r: &mut Rng) -> EncOpts {
     }
 }
 
-fn ctl_frames(r: &mut Rng, sid: u32, strict: bool) -> Vec<Frame> {
+pub(crate) fn ctl_frames(r: &mut Rng, sid: u32, strict: bool) -> Vec<Frame> {
     let n = r.below(5) as usize;
     let mut v = Vec::new();
     for _ in 0..n {
@@ -197,6 +199,7 @@ fn push_a(out: &mut Vec<String>, is_req: bool, ctl: &[Frame], sid: u32, items: &
 }
 
 fn gen(r: &mut Rng, tier: &Tier, out: &mut Vec<String>) {
+    packets::gen_g(r, tier, out);
     // ---- structured: header lists x encoder choices x framings x control prefixes / trailers
     let n = tier.scale(2500, 40000);
     for _ in 0..n {
